@@ -699,6 +699,17 @@ class Interp:
                 q = x.div_sym(y)
                 if q is not None:
                     return vsize(q) if op == "Div" else vsize(0)
+                if st.F.prove_ge(y - 1) and st.F.prove_ge(x):
+                    # ceiling-division idiom (a + y - 1) / y over a known decomposition a = k*y + d
+                    for (t2, c2), (k2, d2) in list(st.decomp.items()):
+                        if c2 == y and (x - t2 - y + 1) == ZERO and op == "Div":
+                            if st.F.prove_eq(d2):
+                                return vsize(k2)
+                            if st.F.prove_ge(d2 - 1):
+                                return vsize(k2 + 1)
+                            return ("sizefork", ("eq", d2), vsize(k2), vsize(k2 + 1))
+                    k, d = self.prims.decompose(st, x, y)
+                    return vsize(k) if op == "Div" else vsize(d)
             if op in ("Div", "Rem", "BitAnd", "BitOr", "BitXor", "Shl", "Shr", "ShlUnchecked", "ShrUnchecked"):
                 # uninterpreted size operation: one opaque non-negative symbol per distinct expression
                 key = "$%s(%r,%r)" % (op, x, y)
@@ -808,7 +819,9 @@ class Interp:
 
     def exec_block(self, st, fr, bb):
         """returns list of ('goto', st, bb) | ('end', kind, st, value)."""
-        blk = fr.body["blocks"][bb]
+        return self._exec_block_data(st, fr, bb, fr.body["blocks"][bb])
+
+    def _exec_block_data(self, st, fr, bb, blk):
         for s in blk["stmts"]:
             if s["k"] == "assign":
                 tg, ty = self.place_target(st, fr, s["place"])
@@ -816,6 +829,9 @@ class Interp:
                     v = self.eval_rvalue(st, fr, s["rv"], ty)
                 except Undecided as e:
                     raise Undecided("%s [%s:%d]" % (e, s["span"]["file"], s["span"]["line"]))
+                if v[0] == "sizefork":
+                    # value depends on an undecided linear condition: split the path here
+                    return self._fork_stmt(st, fr, bb, blk, s, tg, v)
                 self.store(st, tg, v)
             elif s["k"] == "setdiscr":
                 raise Undecided("setdiscriminant")
@@ -862,6 +878,25 @@ class Interp:
                 out.append(("goto", s2, t["target"]))
             return out
         raise Undecided("terminator %s" % k)
+
+    def _fork_stmt(self, st, fr, bb, blk, stmt, tg, v):
+        """finish block `bb` twice, once per branch of a conditional value."""
+        idx = blk["stmts"].index(stmt)
+        out = []
+        s1 = st.fork()
+        s1.assume(v[1])
+        s0 = st
+        s0.assume(neg_cond(v[1]))
+        for s_, val in ((s1, v[2]), (s0, v[3])):
+            if s_.F.inconsistent():
+                continue
+            self.store(s_, tg, val)
+            rest = dict(blk)
+            rest["stmts"] = blk["stmts"][idx + 1:]
+            key = ("_rest", bb, idx)
+            fr.body.setdefault("_tmpblocks", {})[key] = rest
+            out.extend(self._exec_block_data(s_, fr, bb, rest))
+        return out
 
     def do_switch(self, st, fr, t, d):
         arms = [(int(a), b) for a, b in t["arms"]]
